@@ -244,8 +244,8 @@ pub fn rounds_estimate(o: &Order, s: u64) -> u64 {
     let take = s.min(d.saturating_add(h));
     match Kind::of(o) {
         Kind::Iceberg => {
-            if h == 0 {
-                2
+            if h == 0 || d == 0 {
+                2 // (an iceberg showing nothing cannot trade or refresh: one visit)
             } else {
                 let t = d.min(h).max(1);
                 (take / t).saturating_add(2)
